@@ -175,6 +175,8 @@ pub enum Prefix {
     Chain3,
     Chain3Snap,
     Chain6Snap,
+    /// three versions and a snapshot of 3 MiB + 77 bytes (large bodies may be served piecewise)
+    Chain3BigSnap,
 }
 
 #[derive(Clone, Copy, Debug, PartialEq, Eq, Hash)]
@@ -273,7 +275,7 @@ fn build_world(scn: &Scn, ctl: &Arc<Ctl>) -> anyhow::Result<World> {
     let nver = match scn.prefix {
         Prefix::NeverSeen => None,
         Prefix::Empty => Some(0),
-        Prefix::Chain3 | Prefix::Chain3Snap => Some(3),
+        Prefix::Chain3 | Prefix::Chain3Snap | Prefix::Chain3BigSnap => Some(3),
         Prefix::Chain6Snap => Some(6),
     };
     if let Some(nv) = nver {
@@ -293,9 +295,10 @@ fn build_world(scn: &Scn, ctl: &Arc<Ctl>) -> anyhow::Result<World> {
             }
         }
         match scn.prefix {
-            Prefix::Chain3Snap | Prefix::Chain6Snap => {
+            Prefix::Chain3Snap | Prefix::Chain6Snap | Prefix::Chain3BigSnap => {
                 let v = w.prefix_ids[1];
-                match lib_exec(&direct, client, &Req::AddSnapshot { vid: v, data: b"prefix-snapshot".to_vec() }, false) {
+                let data = if scn.prefix == Prefix::Chain3BigSnap { crate::ops::PaySpec::new(3 * 1024 * 1024 + 77, 0, 0xB16).bytes() } else { b"prefix-snapshot".to_vec() };
+                match lib_exec(&direct, client, &Req::AddSnapshot { vid: v, data }, false) {
                     Resp::SnapOk => {}
                     o => anyhow::bail!("prefix snapshot failed: {}", o.short()),
                 }
